@@ -25,7 +25,7 @@ Definition tlcp_do_connect_guards : list guard_spec := [
   ("guard", "x509_certs_get_cert_by_index", "!=1", []);
   ("guard", "sm2_verify_finish", "!=1", []);
   ("guard", "tls_record_decrypt", "!=1", []);
-  ("guard", "memcmp", "!=0", []);
+  ("guard", "memcmp(verify_data,local_verify_data)", "!=0", []);
   ("success", "ret=1", "-", [])
 ].
 Definition tlcp_do_accept_guards : list guard_spec := [
@@ -36,7 +36,7 @@ Definition tlcp_do_accept_guards : list guard_spec := [
   ("guard", "x509_certs_get_cert_by_index", "!=1", ["client_verify"]);
   ("guard", "sm2_verify_finish", "!=1", ["client_verify"]);
   ("guard", "tls_record_decrypt", "!=1", []);
-  ("guard", "memcmp", "!=0", []);
+  ("guard", "memcmp(verify_data,local_verify_data)", "!=0", []);
   ("success", "ret=1", "-", [])
 ].
 Definition tls12_do_connect_guards : list guard_spec := [
@@ -45,7 +45,7 @@ Definition tls12_do_connect_guards : list guard_spec := [
   ("guard", "x509_certs_get_cert_by_index", "!=1", []);
   ("guard", "tls_verify_server_ecdh_params", "!=1", []);
   ("guard", "tls_record_decrypt", "!=1", []);
-  ("guard", "memcmp", "!=0", []);
+  ("guard", "memcmp(verify_data,local_verify_data)", "!=0", []);
   ("success", "ret=1", "-", [])
 ].
 Definition tls12_do_accept_guards : list guard_spec := [
@@ -54,7 +54,7 @@ Definition tls12_do_accept_guards : list guard_spec := [
   ("guard", "x509_certs_get_cert_by_index", "!=1", ["client_verify"]);
   ("guard", "tls_client_verify_finish", "!=1", ["client_verify"]);
   ("guard", "tls_record_decrypt", "!=1", []);
-  ("guard", "memcmp", "!=0", []);
+  ("guard", "memcmp(verify_data,local_verify_data)", "!=0", []);
   ("success", "ret=1", "-", [])
 ].
 Definition tls13_do_connect_guards : list guard_spec := [
@@ -68,7 +68,7 @@ Definition tls13_do_connect_guards : list guard_spec := [
   ("guard", "tls13_record_decrypt", "!=1", []);
   ("guard", "tls13_verify_certificate_verify", "!=1", []);
   ("guard", "tls13_record_decrypt", "!=1", []);
-  ("guard", "memcmp", "!=0", []);
+  ("guard", "memcmp(server_verify_data,verify_data)", "!=0", []);
   ("success", "ret=1", "-", [])
 ].
 Definition tls13_do_accept_guards : list guard_spec := [
@@ -80,7 +80,7 @@ Definition tls13_do_accept_guards : list guard_spec := [
   ("guard", "tls13_record_decrypt", "!=1", ["client_verify"]);
   ("guard", "tls13_verify_certificate_verify", "!=1", ["client_verify"]);
   ("guard", "tls13_record_decrypt", "!=1", []);
-  ("guard", "memcmp", "!=0", []);
+  ("guard", "memcmp(client_verify_data,verify_data)", "!=0", []);
   ("success", "ret=1", "-", [])
 ].
 
